@@ -240,16 +240,23 @@ def main(run):
     thorough = run.tier == "thorough"
     if not run.replay:
         design(run, thorough)
-    for name, args in groups(thorough, run.seed):
+    # two batches (one harness run + one validation pipeline each): the random walks and the
+    # exhaustive enumerations; every behaviour carries its own configuration
+    for batch in ("sim", "exh"):
         if run.replay:
-            behs = run.replay_behaviours(name)
+            behs = run.replay_behaviours(batch)
         else:
-            behs = gen(run, name, timeout=1800, **args)
+            behs = []
+            for name, args in groups(thorough, run.seed):
+                if name.startswith(batch):
+                    b = gen(run, name, timeout=1800, **args)
+                    v.log("generator %s: %d behaviours" % (name, len(b)))
+                    behs += b
+            behs = dedupe(behs)
         if not behs:
             continue
-        v.log("group %s: %d behaviours" % (name, len(behs)))
-        traces = run.execute("c17", "pkg/server", "^TestVerifC17$", behs, tag="c17-" + name, timeout=2400)
-        validate_group(run, traces, behs, name)
+        traces = run.execute("c17", "pkg/server", "^TestVerifC17$", behs, tag="c17-" + batch, timeout=2400)
+        validate_group(run, traces, behs, batch)
         if run.violations:
             break
 
